@@ -265,6 +265,12 @@ func (r *Run) bearerVariant(b *BearerKeySpec, v string) (map[string]interface{},
 		return map[string]interface{}{"exp": now.Add(maxDur + time.Hour).Unix()}, MustNot, scope
 	case "exp_within_max":
 		return map[string]interface{}{"exp": now.Add(maxDur / 2).Unix()}, Must, scope
+	case "old_iat_exp_beyond_max":
+		// the maximum is "the maximum time after the JWT's issued date during which it is considered valid" (config doc): an
+		// assertion issued long ago whose exp lies beyond iat+max is refused whether or not iat is a required claim
+		return map[string]interface{}{"iat": now.Add(-3 * maxDur).Unix(), "exp": now.Add(maxDur / 8).Unix()}, MustNot, scope
+	case "old_iat_within_max":
+		return map[string]interface{}{"iat": now.Add(-maxDur / 2).Unix(), "exp": now.Add(maxDur / 4).Unix()}, Must, scope
 	case "nbf_future":
 		return map[string]interface{}{"nbf": now.Add(10 * time.Minute).Unix()}, MustNot, scope
 	case "nbf_past":
@@ -297,7 +303,7 @@ func (r *Run) bearerVariant(b *BearerKeySpec, v string) (map[string]interface{},
 }
 
 var bearerVariants = []string{"ok", "ok", "ok", "aud_array", "wrong_key", "unknown_iss", "unknown_sub", "iss_missing", "sub_missing", "aud_wrong", "aud_missing", "exp_past", "exp_just_past", "exp_past_45s", "exp_soon", "nbf_just_ahead", "exp_missing",
-	"exp_too_far", "exp_within_max", "nbf_future", "nbf_past", "iat_missing", "jti_missing", "scope_outside", "scope_wild_ok", "alg_none", "alg_hs256", "kid_unknown", "replay", "replay"}
+	"exp_too_far", "exp_within_max", "old_iat_exp_beyond_max", "old_iat_within_max", "nbf_future", "nbf_past", "iat_missing", "jti_missing", "scope_outside", "scope_wild_ok", "alg_none", "alg_hs256", "kid_unknown", "replay", "replay"}
 
 func (r *Run) opBearerAssert(st Step) {
 	if len(r.W.K.BearerKeys) == 0 {
